@@ -567,6 +567,8 @@ func checkC02(res *Result) {
 
 	res.Rule("C02-R12", "what delivery reads is decoded: every type that has to / bto / cc / bcc / audience, inbox, items or orderedItems decodes and claims the member (an actor document whose type skips 'inbox' has no inbox as far as getInbox can tell)")
 	checkMembersDecoded(res, "C02-R12", []string{"to", "bto", "cc", "bcc", "audience", "inbox", "items", "orderedItems"}, "the delivery computation does not see the member on values of that type: an addressed actor of that type fails the whole delivery, a collection of that type is not expanded")
+	res.Rule("C02-R13", "an actor document decoded for its inbox is that document alone: every json.Unmarshal in pub decodes into a variable fresh for that decode (local to the activation, declared inside the loop)")
+	checkFreshDecodeTargets(res, p, "C02-R13")
 	res.Assumptions = append(res.Assumptions, "value flow is an over-approximation: absence of a flow is exact, presence is necessary for the behaviour", "CFG paths over-approximate feasible paths")
 	res.Undecided = []string{"that the resolved set equals the addressed inboxes on a concrete federation graph", "stored-inbox shortcut arithmetic (removeOne) on duplicates", "cyclic collections with an unlimited depth setting"}
 	res.Trusted = []string{"go/types, go/ssa (x/tools v0.29.0)", "e1_effects.go, e2_facts.go, e4_flow.go, e9_errflow.go"}
